@@ -140,7 +140,10 @@ func Decompress(in []byte) (out []byte, n int, err error) {
 	buf := bytes.NewBuffer(make([]byte, 0, dsize+bytes.MinRead))
 
 	var rn int64
-	rn, err = buf.ReadFrom(io.LimitReader(or, int64(dsize+1)))
+	// read to EOF: the gzip reader verifies checksum and size trailer only at
+	// the end of the stream; stopping at the advertised size returned
+	// truncated data with a nil error when the stream was longer than that
+	rn, err = buf.ReadFrom(or)
 
 	n = int(rn)
 
